@@ -132,7 +132,27 @@ class C07(Prop):
         return impl.startswith("ok ")
 
 
-REGISTRY = {p.pid: p for p in [C04(), C07(), C14(), C20()]}
+class C05(Prop):
+    pid = "C05"
+    title = "VA / RVA / typed reads"
+    thm_modules = ["PeliteModel.Thm.C05"]
+    gens = [gen_img.gen_c05]
+
+    def nontrivial(self, op, impl):
+        return impl.startswith("ok ")
+
+
+class C06(Prop):
+    pid = "C06"
+    title = "file <-> view conversion"
+    thm_modules = ["PeliteModel.Thm.C06", "PeliteModel.Thm.C06RoundTrip"]
+    gens = [gen_img.gen_c06]
+
+    def nontrivial(self, op, impl):
+        return impl.startswith("ok ")
+
+
+REGISTRY = {p.pid: p for p in [C04(), C05(), C06(), C07(), C14(), C20()]}
 
 
 def _load_plugins():
